@@ -429,7 +429,27 @@ def _field_row(a):
             canon(a.eq_key), canon(a.order_key)]
 
 
+ENV_OPS = ("validatorsOff", "validatorsOn")
+
+
 def deep_of(cls, allowed=None):
+    """`_deep_of` with the process environment in a canonical state: the whole fingerprint is taken with validators
+    enabled, the assignment/construction probes once more with validators disabled; the switch is put back to
+    what it was.  (A class must behave the same whatever the switch was while it was being DEFINED.)"""
+    prev = attr.validators.get_disabled()
+    try:
+        attr.validators.set_disabled(False)
+        out = _deep_of(cls, allowed, True)
+        attr.validators.set_disabled(True)
+        off = _deep_of(cls, allowed, False)
+        out["validators_disabled"] = {k: off.get(k) for k in ("assign", "construct", "construct_defaults")}
+        out["foreign"] = list(out.get("foreign") or []) + list(off.get("foreign") or [])
+        return out
+    finally:
+        attr.validators.set_disabled(prev)
+
+
+def _deep_of(cls, allowed=None, full=True):
     """the full behaviour fingerprint of a class: structure of `fields()`, class dict keys, probes, and
     `foreign`: every owner-tagged callable held or run by the class that belongs neither to the class itself, nor
     to one of its bases, nor to the shared arguments (`allowed`: owner -> label).
@@ -458,8 +478,8 @@ def deep_of(cls, allowed=None):
     out["slotkinds"] = {k: slot_of(cls, k) for k in ("__setattr__", "__delattr__", "__hash__", "__eq__", "__ne__", "__lt__",
                                                       "__le__", "__gt__", "__ge__", "__init__", "__repr__", "__str__",
                                                       "__getstate__", "__setstate__", "__attrs_init__")}
-    out["result"] = _safe(lambda: result_of(cls))
-    held = _safe(lambda: sorted({o.tok + "@" + allowed.get(o.owner, "FOREIGN") for o in owned_objects(cls)}))
+    out["result"] = _safe(lambda: result_of(cls)) if full else None
+    held = _safe(lambda: sorted({o.tok + "@" + allowed.get(o.owner, "FOREIGN") for o in owned_objects(cls)})) if full else []
     out["held"] = held
     if isinstance(held, list):
         foreign += ["holds " + h for h in held if h.endswith("@FOREIGN")]
@@ -472,8 +492,8 @@ def deep_of(cls, allowed=None):
     out["tupcls"] = [type(real).__name__, len(real),
                      [_safe(lambda a=a: getattr(real, a.name) is a) for a in tup],
                      [_safe(lambda i=i: real[i] is tup[i]) for i in range(len(tup))]]
-    out["fields"] = [_safe(lambda a=a: _field_row(a)) for a in tup]
-    for m in ("__init__", "__attrs_init__"):
+    out["fields"] = [_safe(lambda a=a: _field_row(a)) for a in tup] if full else None
+    for m in (("__init__", "__attrs_init__") if full else ()):
         f = d.get(m)
         if f is not None and slot_of(cls, m) == "gen":
             out["sig" + m] = attempt(lambda f=f: _ADDR.sub(" at 0x?", str(inspect.signature(f))))
@@ -484,15 +504,16 @@ def deep_of(cls, allowed=None):
     out["blank"] = x
     if x[0] == "ok":
         i1, i2, i3 = _blank(cls, RAW1), _blank(cls, RAW1), _blank(cls, RAW3)
-        out["hash"] = [attempt(lambda: hash(i1) == hash(i2))[0], attempt(lambda: hash(i1) == hash(i1)),
-                       attempt(lambda: hash(i1) == hash(i3)), log()]
-        out["repr"] = [attempt(lambda: _ADDR.sub(" at 0x?", repr(i1))), log()]
-        out["eq"] = [attempt(lambda: i1 == i2), attempt(lambda: i1 != i2), attempt(lambda: i1 == i1),
-                     attempt(lambda: i1 == i3), attempt(lambda: i1 != i3), log()]
-        out["lt"] = [attempt(lambda: i1 < i2), attempt(lambda: i1 < i3), attempt(lambda: i3 <= i1),
-                     attempt(lambda: i1 > i3), attempt(lambda: i1 >= i3), log()]
-        if slot_of(cls, "__getstate__") == "gen":
-            out["getstate"] = [attempt(lambda: i1.__getstate__()), log()]
+        if full:
+            out["hash"] = [attempt(lambda: hash(i1) == hash(i2))[0], attempt(lambda: hash(i1) == hash(i1)),
+                           attempt(lambda: hash(i1) == hash(i3)), log()]
+            out["repr"] = [attempt(lambda: _ADDR.sub(" at 0x?", repr(i1))), log()]
+            out["eq"] = [attempt(lambda: i1 == i2), attempt(lambda: i1 != i2), attempt(lambda: i1 == i1),
+                         attempt(lambda: i1 == i3), attempt(lambda: i1 != i3), log()]
+            out["lt"] = [attempt(lambda: i1 < i2), attempt(lambda: i1 < i3), attempt(lambda: i3 <= i1),
+                         attempt(lambda: i1 > i3), attempt(lambda: i1 >= i3), log()]
+            if slot_of(cls, "__getstate__") == "gen":
+                out["getstate"] = [attempt(lambda: i1.__getstate__()), log()]
         assigns = []
         for a in list(tup) + [None]:
             name = a.name if a is not None else "zz_other"
@@ -908,6 +929,8 @@ class World:
                 self.cas[j].validator(mk_val(self.shared, f"ca{j}.op{n_valid(self.cas[j]._validator)}"))
             elif isinstance(step, dict) and "caDefault" in step:
                 self.cas[step["caDefault"]["j"]].default(_DEFAULT_METH)
+            elif step in ENV_OPS:
+                attr.validators.set_disabled(step == "validatorsOff")
             elif step == "valAppend":
                 self.L_items.append(mk_val(self.shared, f"L{len(self.L_items)}"))
                 self._rebuild()
